@@ -441,10 +441,11 @@ class Pattern(Interp):
         # path refinement (DESIGN.md 3.2): where is_chain_graph(X) holds, X *is* the 0/1 chain
         # - only when the callee really is a *value* test (its result is the exempt value comparison); a
         # pattern-based is_chain_graph would let weighted chains through and refines nothing
-        if isinstance(fv, FuncRef) and fv.func.qname in self.EXEMPT_FUNCS and isinstance(n, ast.Call) and n.args \
-                and isinstance(n.args[0], ast.Name) and isinstance(r, PV) and r.lvl == ARITH and r.prov \
-                and all(site[0] in self.EXEMPT_FUNCS for site in r.prov):
-            return PV(r.lvl, r.prov, ref=frozenset({(n.args[0].id, True)}))
+        if isinstance(fv, FuncRef) and fv.func.qname in self.EXEMPT_FUNCS and isinstance(n, ast.Call):
+            first = n.args[0] if n.args else next((k.value for k in n.keywords if fv.func.posparams and k.arg == fv.func.posparams[0]), None)
+            if isinstance(first, ast.Name) and isinstance(r, PV) and r.lvl == ARITH and r.prov \
+                    and all(site[0] in self.EXEMPT_FUNCS for site in r.prov):
+                return PV(r.lvl, r.prov, ref=frozenset({(first.id, True)}))
         return r
 
     def h_call_opaque(self, fv, n, args, kwargs, env, ctx):
